@@ -139,7 +139,7 @@ SendCall(r, a, mt, toks) ==
   /\ svc # 0 /\ cli = Idle
   /\ r \in Table(svc)
   /\ mt \in (IF Meth(r).oneway THEN {CALL, ONEWAY} ELSE {CALL})
-  /\ Writable(STy(Meth(r).args), a)
+  /\ Writable(STy(Meth(r).args), a) = TRUE   \* (= TRUE: evaluate as an expression, not as an action-level disjunction)
   /\ TreeOf(toks) = StructTree(Meth(r).args, a)
   /\ seq' = seq + 1
   /\ c2s' = Append(c2s, [name |-> Meth(r).name, mt |-> mt, seq |-> seq + 1, toks |-> toks])
@@ -153,7 +153,7 @@ SendCall(r, a, mt, toks) ==
 InjectRaw(name, s, toks) ==
   /\ svc # 0 /\ cli = Idle
   /\ Lookup(svc, name) = {}
-  /\ IsDone(ParseTokens(toks))
+  /\ IsDone(ParseTokens(toks)) = TRUE
   /\ c2s' = Append(c2s, [name |-> name, mt |-> CALL, seq |-> s, toks |-> toks])
   /\ reqs' = Append(MarkLag(reqs), [kind |-> "raw", r |-> <<0, 0>>, name |-> name, seq |-> s, a |-> NONE, oneway |-> FALSE,
                                     lag |-> FALSE, seen |-> NONE, out |-> NONE, res |-> NONE])
@@ -177,7 +177,7 @@ SrvSkipUnknown ==
 (* ... and an application exception goes back under the same name and sequence id *)
 SrvUnknownMethod(toks) ==
   /\ srv.st = "unk"
-  /\ AppExcTree(TreeOf(toks))
+  /\ AppExcTree(TreeOf(toks)) = TRUE
   /\ s2c' = Append(s2c, [name |-> srv.msg.name, mt |-> EXCEPTION, seq |-> srv.msg.seq, toks |-> toks])
   /\ replies' = Append(replies, srv.msg.seq)
   /\ srv' = Idle
@@ -195,7 +195,7 @@ SrvReadArgs ==
 (* the handler runs: it sees the arguments and answers with outcome o *)
 SrvInvoke(o) ==
   /\ srv.st = "args"
-  /\ OutcomeOK(Meth(srv.r), o)
+  /\ OutcomeOK(Meth(srv.r), o) = TRUE
   /\ srv' = [st |-> "done", k |-> srv.k, msg |-> srv.msg, r |-> srv.r, out |-> o]
   /\ reqs' = [reqs EXCEPT ![srv.k].seen = srv.args, ![srv.k].out = o]
   /\ UNCHANGED <<svc, seq, c2s, s2c, cli, nread, replies>>
@@ -212,7 +212,7 @@ SrvReply(toks) ==
 (* any other handler error: EXCEPTION with an application exception *)
 SrvAppException(toks) ==
   /\ srv.st = "done" /\ ~Meth(srv.r).oneway /\ srv.out.k = "other"
-  /\ AppExcTree(TreeOf(toks))
+  /\ AppExcTree(TreeOf(toks)) = TRUE
   /\ s2c' = Append(s2c, [name |-> srv.msg.name, mt |-> EXCEPTION, seq |-> srv.msg.seq, toks |-> toks])
   /\ replies' = Append(replies, srv.msg.seq)
   /\ srv' = Idle
